@@ -10,6 +10,7 @@ import (
 	"encoding/json"
 	"errors"
 	"fmt"
+	"os"
 	"strings"
 	"time"
 
@@ -499,14 +500,75 @@ func netCheck(c netConf, r *vm.Result) string {
 	return e1.Multi(msgs, r.ObsString())
 }
 
+// poolCheck is the oracle of the C19 part (run by checks/c19/run.sh with C10_AS=C19): a listener
+// with MaxInvoke=N never runs more than N handlers at the same time, and runs every request once.
+func poolCheck(c netConf, r *vm.Result) string {
+	switch r.Status {
+	case vm.StDeadlock:
+		return "deadlock\n" + strings.Join(r.Blocked, ",") + "\n" + r.ObsString()
+	case vm.StPanic:
+		return "panic: " + strings.SplitN(r.PanicMsg, "\n", 2)[0] + "\n" + r.PanicStk
+	case vm.StStepLimit:
+		return "step-limit"
+	case vm.StExit:
+		return "process-exit-in-server\n" + lastLines(r.Obs, 6)
+	}
+	var msgs []string
+	running, peak := 0, 0
+	started := map[string]int{}
+	for _, o := range r.Obs {
+		if strings.HasPrefix(o, "servant notify ") {
+			if strings.HasSuffix(o, " done") {
+				running--
+			} else {
+				running++
+				started[strings.TrimPrefix(o, "servant notify ")]++
+				if running > peak {
+					peak = running
+				}
+			}
+		}
+	}
+	if c.maxInvoke > 0 && peak > int(c.maxInvoke) {
+		msgs = append(msgs, fmt.Sprintf("listener-ran-more-handlers-than-MaxInvoke:%s\npeak %d, MaxInvoke %d", c.proto, peak, c.maxInvoke))
+	}
+	for _, q := range c.reqs {
+		if n := started[q.cmd]; n != 1 {
+			msgs = append(msgs, fmt.Sprintf("listener-job-ran-%d-times:%s", n, c.proto))
+		}
+	}
+	if len(msgs) == 0 {
+		return ""
+	}
+	return e1.Multi(msgs, r.ObsString())
+}
+
+// pad lengthens the command of q until the encoded request is exactly total bytes long.
+func pad(q reqSpec, total int) reqSpec {
+	base := q.cmd
+	for k := 0; k <= total; k++ {
+		q.cmd = strings.Replace(base, "|", strings.Repeat("x", k)+"|", 1)
+		if len(q.encode()) == total {
+			return q
+		}
+	}
+	panic(fmt.Sprint("no padding reaches ", total))
+}
+
 func main() {
-	run := common.Start("C10", "model_checking")
+	as := "C10"
+	if v := os.Getenv("C10_AS"); v != "" {
+		as = v
+	}
+	run := common.Start(as, "model_checking")
 	var cases []e1.Case
 	budget := 90 * time.Second
 	if run.Thorough() {
 		budget = 10 * time.Minute
 	}
-	cases = append(cases, e1.Case{Sc: matrixScenario(run.Thorough()), Opt: vm.Options{Bound: 0, StrictDev: true}, Budget: budget, MinOutcomes: 1})
+	if as == "C10" {
+		cases = append(cases, e1.Case{Sc: matrixScenario(run.Thorough()), Opt: vm.Options{Bound: 0, StrictDev: true}, Budget: budget, MinOutcomes: 1})
+	}
 	add := func(c netConf, bound int, prune bool) {
 		for pol, pn := range []string{"oldest-first", "newest-first", "round-robin"} {
 			cc := c
@@ -522,6 +584,35 @@ func main() {
 		return q
 	}
 	T := 200
+	if as == "C19" {
+		// the pool as the listeners use it: N+2 slow requests on 1-2 connections
+		for _, proto := range []string{"tcp", "udp"} {
+			for _, pool := range []int32{1, 2} {
+				for _, conns := range []int{1, 2} {
+					var reqs []reqSpec
+					for i := int32(0); i < pool+2; i++ {
+						reqs = append(reqs, R(100+i, 1, 0, "notify", "slow100"))
+					}
+					c := netConf{name: "listener pool", proto: proto, maxInvoke: pool, conns: conns, reqs: reqs}
+					for pol, pn := range []string{"oldest-first", "newest-first", "round-robin"} {
+						b := 2
+						if run.Thorough() {
+							b = 3
+						}
+						cc := c
+						cc.name = fmt.Sprintf("%s proto=%s MaxInvoke=%d conns=%d requests=%d bound=%d policy=%s", c.name, proto, pool, conns, len(reqs), b, pn)
+						sc := netScenario(cc)
+						sc.Check = func(r *vm.Result) string { return poolCheck(cc, r) }
+						cases = append(cases, e1.Case{Sc: sc, Opt: vm.Options{Bound: b, StrictDev: true, Policy: pol}, Budget: budget, MinOutcomes: 1})
+					}
+				}
+			}
+		}
+		e1.Main(run, cases, []string{
+			"listener part of C19: the real TarsServer with tcpHandler/udpHandler and their gpool over the in-memory network; handlers take 100 ms of virtual time, concurrency is read from the servant's start/end log",
+		})
+		return
+	}
 	for _, proto := range []string{"tcp", "udp"} {
 		for _, pool := range []int32{0, 1, 2} {
 			b := 2
@@ -558,6 +649,26 @@ func main() {
 		late2.atMs = 50 // the other connection's request is being executed by then
 		add(netConf{name: "queue-timeout behind busy worker two conns", proto: proto, maxInvoke: 1, conns: 2, reqs: []reqSpec{
 			R(61, 1, 0, "notify", "slow600"), late2}}, 1, false)
+	}
+	// requests whose bytes end exactly on the 4096-byte read buffer, then silence
+	for _, pool := range []int32{0, 1} {
+		add(netConf{name: "exact-buffer 4096", proto: "tcp", maxInvoke: pool, conns: 1, reqs: []reqSpec{pad(R(71, 1, 0, "notify", "ok"), 4096)}}, 1, false)
+		add(netConf{name: "exact-buffer 1000+3096", proto: "tcp", maxInvoke: pool, conns: 1, reqs: []reqSpec{pad(R(72, 1, 0, "notify", "ok"), 1000), pad(R(73, 1, 0, "notify", "ok"), 3096)}}, 1, false)
+		add(netConf{name: "exact-buffer 8192", proto: "tcp", maxInvoke: pool, conns: 1, reqs: []reqSpec{pad(R(74, 1, 0, "notify", "ok"), 8192)}}, 1, false)
+		add(netConf{name: "exact-buffer 5000+7288", proto: "tcp", maxInvoke: pool, conns: 1, reqs: []reqSpec{pad(R(75, 3, 0, "notify", "ok"), 5000), pad(R(76, 1, 1, "notify", "ok"), 7288)}}, 1, false)
+	}
+	// a short caller timeout at several phases of the wall-clock second: the time spent in the queue is
+	// what counts, not where in the second the request arrives
+	for _, proto := range []string{"tcp", "udp"} {
+		for _, pool := range []int32{0, 1} {
+			var reqs []reqSpec
+			for i, at := range []int{50, 450, 700, 950, 1850} {
+				q := R(int32(81+i), 1, int8(i%2), "notify", "ok")
+				q.timeout, q.atMs = 300, at
+				reqs = append(reqs, q)
+			}
+			add(netConf{name: "short timeout at phases of the second", proto: proto, maxInvoke: pool, conns: 1, reqs: reqs}, 1, false)
+		}
 	}
 	{
 		add(netConf{name: "three pipelined", proto: "tcp", maxInvoke: 1, conns: 1, reqs: []reqSpec{
